@@ -397,6 +397,47 @@ func main() {
 			}
 		}
 	}
+	// ---- 2b. Clear in several fill states (incl. after growth and after shrink), then reuse starting with every kind of
+	//          call, then Insert / Set / Remove at both ends, Clear again, reuse ----
+	firsts := []op{{K: "Add", Vs: []int{0}}, {K: "Add", Vs: []int{3, 0, 1}}, {K: "Prepend", Vs: []int{2, 0}}, {K: "Append", Vs: []int{1}},
+		{K: "Insert", I: 0, Vs: []int{0, 2}}, {K: "Insert", I: 0}, {K: "Insert", I: 1, Vs: []int{3}}, {K: "Set", I: 0, J: 0}, {K: "Set", I: 1, J: 2},
+		{K: "Remove", I: 0}, {K: "Swap", I: 0, J: 0}, {K: "Sort"}, {K: "Clear"}}
+	fills := []int{0, 1, 3, 12, 13}
+	for _, k := range kinds {
+		for fi, n := range fills {
+			for oi, first := range firsts {
+				if k.safe && !thorough && (fi+oi)%3 != 0 {
+					continue
+				}
+				r := rng.Fork()
+				c := newCase(k)
+				c.fill(r, n)
+				if n >= 12 && oi%2 == 1 { // let the array shrink before the Clear
+					for i := 0; i < 10; i++ {
+						c.do(op{K: "Remove", I: c.l.Size() - 1})
+					}
+				}
+				c.do(op{K: "Clear"})
+				c.do(first)
+				c.do(op{K: "Add", Vs: []int{1, 0, 2}})
+				c.do(op{K: "Insert", I: 0, Vs: []int{3}})
+				c.do(op{K: "Insert", I: c.l.Size(), Vs: []int{0, 3}})
+				c.do(op{K: "Insert", I: c.l.Size() - 1, Vs: []int{2}})
+				c.do(op{K: "Set", I: 0, J: 0})
+				c.do(op{K: "Set", I: c.l.Size() - 1, J: 1})
+				c.do(op{K: "Set", I: c.l.Size(), J: 2})
+				c.do(op{K: "Remove", I: c.l.Size() - 1})
+				c.do(op{K: "Remove", I: 0})
+				c.do(op{K: "Add", Vs: []int{0}})
+				c.do(op{K: "Clear"})
+				c.do(op{K: "Prepend", Vs: []int{0}})
+				c.do(op{K: "Add", Vs: []int{2, 0}})
+				c.do(op{K: "Remove", I: c.l.Size() - 1})
+				c.do(op{K: "Add", Vs: []int{3}})
+				c.emit(w, "clear-reuse")
+			}
+		}
+	}
 	// ---- 3. profiled random walks ----
 	profiles := []string{"grow", "shrink", "churn", "malformed", "sorty", "zeros", "prepend-heavy", "long"}
 	walks := 10
